@@ -237,7 +237,7 @@ def run_handmade(spec, acc):
         'b': gen.B('Config', kinds.three, kw={'a': gen.Leaf('q')}),
         'c': gen.Map('dict', [('k', gen.Leaf(5))]),
     })
-    variant = i % 9
+    variant = i % 10
     if variant >= 6:
       # old holds ONE two-node under two paths (.a and .extra_s): a diff may write through one
       # path and read the old content through the other
@@ -285,6 +285,13 @@ def run_handmade(spec, acc):
       changes = (diffing.ModifyValue((A('a'), A('y')), 'overwritten'),
                  diffing.SetValue((A('b'), A('c')), new_ref(0)),
                  diffing.SetValue((A('c'), daglish.Key('m')), old_ref(A('extra_s'), A('y'))))
+    elif variant == 9:    # new shared values whose natural names clash with generated suffixes
+      order = rng.choice([[kinds.stage, kinds.stage, kinds.stage_3, kinds.stage],
+                          [kinds.stage_3, kinds.stage, kinds.stage, kinds.stage],
+                          [kinds.stage, kinds.stage_3, kinds.stage, kinds.stage, kinds.stage]])
+      shared = tuple(fdl.Config(f, x=j) for j, f in enumerate(order))
+      changes = tuple(diffing.SetValue((A('c'), daglish.Key(f's{j}')), new_ref(j)) for j in range(len(order))) + \
+          (diffing.ModifyValue((A('a'),), new_ref(0)), diffing.SetValue((A('b'), A('b')), new_ref(len(order) - 1)))
     elif variant == 8:    # a diff computed on a twin WITHOUT the sharing, used on the shared one
       twin_root, _ = dagedit.structural_clone(old_root)
       twin_root.kw['extra_s'], _ = dagedit.structural_clone(twin_root.kw['a'])
